@@ -98,6 +98,12 @@ def symbolic_trace(rng, ncalls=10, via="liesel"):
     if rng.random() < 0.3:
         plan.append({"kind": "v", "inp": [], "tagged": True})
         plan.append({"kind": rng.choice(["c", "t"]), "inp": [len(plan)]})
+    # now and then a calculator reads the *value node* of a distributed variable directly (not through the variable)
+    if rng.random() < 0.3:
+        cand = [q["inp"][-1] for q in plan if q["kind"] in ("d", "e") and q.get("has_var")]
+        cand = [plan[at - 1]["inp"][0] for at in cand if plan[plan[at - 1]["inp"][0] - 1]["kind"] == "v"]
+        if cand:
+            plan.append({"kind": rng.choice(["c", "t"]), "inp": [rng.choice(cand)]})
     run = ProgramRun(plan, unodes)
     user = run.model
     hdr = run.header()
